@@ -9,7 +9,7 @@
    what a round trip must return, wf / wf_cell = "a value of the type", size_only = "refused only
    because a length exceeds i32", vector_hole / empty_tuple_inside / known_class = the two known
    finding classes (F2 vector-null-element, F14 empty-tuple). *)
-From SV Require Import Base.Prelude Base.Bytes Model.Vint Model.Cql Proofs.Vint_proofs Proofs.Cql_proofs.
+From SV Require Import Base.Prelude Base.Bytes Model.Vint Model.Cql Model.CqlTyped Proofs.Vint_proofs Proofs.Cql_proofs Proofs.CqlTyped_proofs.
 Open Scope N_scope.
 
 (* ---------------------------------------------------------------------------------------- *)
@@ -121,6 +121,64 @@ Proof. exact ser_vector_cells_vals. Qed.
 Theorem C01_sequence_cells_vals : forall e vs,
   ser_sequence_cells e (map CVal vs) = ser_cell (TList e) (CVal (CList vs)).
 Proof. exact ser_sequence_cells_vals. Qed.
+
+(* ---------------------------------------------------------------------------------------- *)
+(* "The same holds through every typed Rust representation": Model/CqlTyped.v                  *)
+(* ---------------------------------------------------------------------------------------- *)
+
+(* every modelled carrier (ints, floats, bool, strings, blobs, inet, uuid/timeuuid, date/time/
+   timestamp/duration/counter, varint/decimal, num-bigint, CqlValue, Option/MaybeUnset/MaybeEmpty,
+   &/Box/Arc, Vec/[T], sets, maps, tuples of any arity, arbitrarily nested) WRITES, into a sized or
+   size-less writer, exactly what the dynamic value it embeds into writes - errors included *)
+Theorem C01_typed_write : forall k ws t v c,
+  embed k t v = Some c -> typed_write k ws t v = ser_cell_ws ws t c.
+Proof. exact (fun k ws t v c => typed_write_embed k ws t v c). Qed.
+
+(* ... and its own decoder READS, from any bytes the dynamic decoder accepts, the carrier value of
+   what the dynamic decoder returns *)
+Theorem C01_typed_read : forall k t b x,
+  typed_check k t = true -> deser_value t b = Ok x -> typed_read k t (Some b) = unembed k t x.
+Proof. exact (fun k t b x => typed_read_unembed k t b x). Qed.
+
+(* hence the typed round trip is the dynamic one *)
+Theorem C01_typed_roundtrip : forall k t v x b,
+  embed k t v = Some (CVal x) -> typed_check k t = true ->
+  wf t x = true -> known_class t x = false ->
+  typed_write k true t v = Ok b ->
+  exists body, b = framed body /\ typed_read k t (Some body) = unembed k t (pad t x).
+Proof. exact typed_roundtrip. Qed.
+
+(* ---------------------------------------------------------------------------------------- *)
+(* F2 fix proposal: the repaired vector writer [ser_value_fixed] (Model/Cql.v section 4b)      *)
+(* ---------------------------------------------------------------------------------------- *)
+
+(* the repair only removes outputs ... *)
+Theorem C01_fixed_refines : forall t ws v b,
+  ser_value_fixed ws t v = Ok b -> ser_value ws t v = Ok b.
+Proof. exact fixed_refines. Qed.
+
+(* ... exactly those with a vector hole: what it accepts has none, and it refuses no value of the
+   type without one *)
+Theorem C01_fixed_no_hole : forall t ws v b,
+  wf_type t = true -> wf_val t v = true -> ser_value_fixed ws t v = Ok b -> vector_hole t v = false.
+Proof. exact fixed_no_hole. Qed.
+
+Theorem C01_fixed_complete : forall t c b,
+  wf_cell t c = true -> match c with CVal v => vector_hole t v = false | _ => True end ->
+  ser_cell t c = Ok b -> ser_cell_fixed t c = Ok b.
+Proof. exact fixed_complete_cell. Qed.
+
+(* hence, with the repaired writer, the round trip holds without the F2 class (F14, the empty
+   tuple, is a different finding) and conformance holds for EVERY value of the type *)
+Theorem C01_roundtrip_fixed : forall t c b r,
+  wf_cell t c = true ->
+  match c with CVal v => empty_tuple_inside t v = false | _ => True end ->
+  ser_cell_fixed t c = Ok b -> deser_cell t (b ++ r) = Ok (pad_cell t c, r).
+Proof. exact roundtrip_cell_fixed. Qed.
+
+Theorem C01_conforms_fixed : forall t c b,
+  wf_cell t c = true -> ser_cell_fixed t c = Ok b -> EncCell t c b.
+Proof. exact conforms_cell_fixed. Qed.
 
 (* ---------------------------------------------------------------------------------------- *)
 (* What [wf] excludes, explicitly                                                             *)
@@ -308,6 +366,51 @@ Example C01_ex_predicates :
     = Ok (CInet [0;0;0;0; 0;0;0;0; 0;0;255;255; 1;2;3;4]).
 Proof. repeat split; vm_compute; reflexivity. Qed.
 
+Example C01_ex_fixed :
+  (* the three F2 witnesses are refused by the repaired writer, ordinary vectors are unchanged *)
+  ser_cell_fixed (TVector (TNative NInt) 2) (CVal (CVector [CInt 7; CEmpty])) = Err SE_VectorLen /\
+  ser_vector_cells_fixed (TNative NInt) 2 [CVal (CInt 7); CNull] = Err SE_VectorLen /\
+  ser_vector_cells_fixed (TNative NBigInt) 2 [CVal (CBigInt 7); CUnset] = Err SE_VectorLen /\
+  ser_cell_fixed (TVector (TNative NInt) 2) (CVal (CVector [CInt 7; CInt (-1)]))
+    = Ok [0;0;0;8; 0;0;0;7; 255;255;255;255] /\
+  ser_vector_cells_fixed (TNative NInt) 2 [CVal (CInt 7); CVal (CInt (-1))]
+    = Ok [0;0;0;8; 0;0;0;7; 255;255;255;255] /\
+  ser_cell_fixed (TVector (TNative NText) 2) (CVal (CVector [CText [97]; CEmpty])) = Ok [0;0;0;3; 1;97; 0] /\
+  ser_cell_fixed (TList (TVector (TNative NFloat) 1)) (CVal (CList [CVector [CEmpty]])) = Err SE_VectorLen.
+Proof. repeat split; vm_compute; reflexivity. Qed.
+
+Example C01_ex_typed :
+  (* Vec<(i32, Option<String>)> bound to list<tuple<int, text>> *)
+  let k := KVec (KTuple [KLeaf LI32; KOption (KLeaf LString)]) in
+  let t := TList (TTuple [TNative NInt; TNative NText]) in
+  let v := TSeq [TTup [TInt 7; TNone]; TTup [TInt (-1); TSome (TBytes [97])]] in
+  embed k t v = Some (CVal (CList [CTuple [Some (CInt 7); None]; CTuple [Some (CInt (-1)); Some (CText [97])]])) /\
+  typed_check k t = true /\
+  typed_write k true t v
+    = Ok [0;0;0;37; 0;0;0;2; 0;0;0;12; 0;0;0;4; 0;0;0;7; 255;255;255;255;
+          0;0;0;13; 0;0;0;4; 255;255;255;255; 0;0;0;1; 97] /\
+  typed_read k t (Some [0;0;0;2; 0;0;0;12; 0;0;0;4; 0;0;0;7; 255;255;255;255;
+                        0;0;0;13; 0;0;0;4; 255;255;255;255; 0;0;0;1; 97]) = Ok v /\
+  (* num-bigint normalises: 128 is 0x0080, -129 is 0xff7f, 0 is 0x00; zero bytes read as 0 *)
+  typed_write (KLeaf LBigInt) true (TNative NVarint) (TBig 128) = Ok [0;0;0;2; 0;128] /\
+  typed_write (KLeaf LBigInt) true (TNative NVarint) (TBig (-129)) = Ok [0;0;0;2; 255;127] /\
+  typed_write (KLeaf LBigInt) false (TNative NVarint) (TBig 0) = Ok [0] /\
+  typed_read (KLeaf LBigInt) (TNative NVarint) (Some [0; 0; 128]) = Ok (TBig 128) /\
+  typed_read (KLeaf LBigInt) (TNative NVarint) (Some []) = Ok (TBig 0) /\
+  (* a null collection decodes to an empty Vec / map; a null int is refused; i32 at bigint is a type error *)
+  typed_read (KVec (KLeaf LI32)) (TList (TNative NInt)) None = Ok (TSeq []) /\
+  typed_read (KMapC (KLeaf LI32) (KLeaf LString)) (TMap (TNative NInt) (TNative NText)) None = Ok (TMapV []) /\
+  typed_read (KLeaf LI32) (TNative NInt) None = Err DE_ExpectedNonNull /\
+  typed_check (KLeaf LI32) (TNative NBigInt) = false /\
+  typed_write (KLeaf LI32) true (TNative NBigInt) (TInt 1) = Err SE_MismatchedType /\
+  (* the typed decoders have no empty-cell rule: i32 refuses a zero-length cell, MaybeEmpty<i32> reads Empty *)
+  typed_read (KLeaf LI32) (TNative NInt) (Some []) = Err DE_ByteLengthMismatch /\
+  typed_read (KMaybeEmpty (KLeaf LI32)) (TNative NInt) (Some []) = Ok TEmptyV /\
+  (* String at ascii: the reader checks ASCII, the writer does not *)
+  typed_write (KLeaf LString) true (TNative NAscii) (TBytes [195; 169]) = Ok [0;0;0;2; 195; 169] /\
+  typed_read (KLeaf LString) (TNative NAscii) (Some [195; 169]) = Err DE_ExpectedAscii.
+Proof. cbv zeta. repeat split; vm_compute; reflexivity. Qed.
+
 Print Assumptions C01_roundtrip.
 Print Assumptions C01_roundtrip_value.
 Print Assumptions C01_roundtrip_value_sized.
@@ -322,6 +425,14 @@ Print Assumptions C01_roundtrip_sequence_cells.
 Print Assumptions C01_conforms_sequence_cells.
 Print Assumptions C01_vector_cells_vals.
 Print Assumptions C01_sequence_cells_vals.
+Print Assumptions C01_typed_write.
+Print Assumptions C01_typed_read.
+Print Assumptions C01_typed_roundtrip.
+Print Assumptions C01_fixed_refines.
+Print Assumptions C01_fixed_no_hole.
+Print Assumptions C01_fixed_complete.
+Print Assumptions C01_roundtrip_fixed.
+Print Assumptions C01_conforms_fixed.
 Print Assumptions C01_wf_native_char.
 Print Assumptions C01_outside_ascii.
 Print Assumptions C01_outside_time.
